@@ -71,6 +71,10 @@ func (s *streamWS) SendMsg(v interface{}) error {
 		return err
 	}
 
+	if len(b) > s.opts.maxSendMessageSize {
+		return fmt.Errorf("max send message size reached")
+	}
+
 	if err := wsutil.WriteServerMessage(s.conn, ws.OpText, b); err != nil {
 		return err
 	}
